@@ -681,10 +681,96 @@ pub(crate) mod b {
             let rects = frags.iter().filter(|f| matches!(f.fragment, Fragment::Rect(_))).count();
             let others = frags.len() - rects + groups.iter().map(|g| g.len()).sum::<usize>();
             if rects != 1 || others != 0 {
-                println!("BOUNDED-WITNESS box {:?}: {} rect(s) and {} other fragments", text, rects, others);
+                println!("BOUNDED-WITNESS box {:?}: {} rect(s), {} other fragments or unendorsed cells", text, rects, others);
                 panic!("a closed box is exactly one rect");
             }
         }
+    }
+
+    /// C09 ("nor the same line twice") on the real pipeline (spans, contacts, endorse, re_endorse): every character
+    /// of the ascii and unicode tables, alone, doubled, stacked, and inside a label, never yields one fragment twice
+    #[test]
+    fn bounded_isolated_characters_once() {
+        let mut chars: Vec<char> = crate::map::ascii_map::ASCII_PROPERTIES.keys().copied().collect();
+        chars.extend(crate::map::unicode_map::UNICODE_FRAGMENTS.keys().copied());
+        chars.sort();
+        chars.dedup();
+        let mut n = 0u64;
+        for ch in chars {
+            if ch == '"' {
+                continue;
+            }
+            let texts = [
+                format!("\n\n   {}\n", ch),
+                format!("{}\n", ch),
+                format!("  {}{}\n", ch, ch),
+                format!(" {}\n {}\n", ch, ch),
+                format!("width {} 10\n", ch),
+                format!("{} {}\n", ch, ch),
+            ];
+            for text in texts {
+                let cb = CellBuffer::from(text.as_str());
+                let Endorse { accepted: singles, rejects: groups } = cb.endorse_to_fragment_spans();
+                let mut all: Vec<String> = singles.iter().map(|f| format!("{:?}", f.fragment)).collect();
+                for g in &groups {
+                    all.extend(g.iter().map(|f| format!("{:?}", f.fragment)));
+                }
+                let total = all.len();
+                all.sort();
+                all.dedup();
+                if all.len() != total {
+                    println!("BOUNDED-WITNESS {:?}: {} fragments, {} distinct", text, total, all.len());
+                    panic!("the same fragment is never emitted twice");
+                }
+                n += 1;
+            }
+        }
+        println!("BOUNDED-CASES {}", n);
+    }
+
+    /// C01 on the entry points themselves (bounded stand-in): no panic for short inputs over an alphabet of the
+    /// characters the statement names (zero-width, control, non-BMP, double-width, unbalanced quotes and braces,
+    /// legend fragments, the one arc glyph whose centre is NaN), and for the small bundled diagrams
+    #[test]
+    fn bounded_entry_points_total() {
+        let alphabet = ['\u{301}', '\u{200d}', '\u{fe0f}', '\0', '\t', '\r', '\u{c}', '\u{7f}', '\u{ffff}', '😀', '一', '"', '\\', '{', '}', '#',
+            '=', '-', '|', '+', '*', 'a', ' ', '\n', '⤹', '>', '.', '\'', ':', '_', '/'];
+        let mut inputs: Vec<String> = words(&alphabet, if thorough() { 4 } else { 3 });
+        for extra in ["# Legend:", "# Legend:\n", "# Legend:\na = {", "# Legend:\na = }\n", "x\n# Legend:\n= {}", "\"\\", "\"\\\"", "{a", "a}", "⤹>-+-+-+-+-\n   | | | |\n"] {
+            inputs.push(extra.to_string());
+        }
+        for file in ["merge.bob", "simple.bob", "circuits.bob"] {
+            let path = format!("{}/test_data/{}", env!("CARGO_MANIFEST_DIR"), file);
+            inputs.push(std::fs::read_to_string(&path).expect("bundled diagram"));
+        }
+        let mut n = 0u64;
+        std::panic::set_hook(Box::new(|_| {}));
+        for (k, text) in inputs.iter().enumerate() {
+            let all = text.chars().count() <= 2 || k + 16 > inputs.len();
+            let r = std::panic::catch_unwind(|| {
+                let mut len = crate::to_svg_string_compressed(text).len();
+                if all {
+                    len += crate::to_svg(text).len() + crate::to_svg_string_pretty(text).len();
+                    for scale in [0.001f32, 8.0, 1.0e6] {
+                        let st = Settings { scale, ..Settings::default() };
+                        len += crate::to_svg_with_settings(text, &st).len();
+                        len += crate::to_svg_with_override_size(text, &st, 3.0, 7.5).len();
+                    }
+                }
+                len
+            });
+            match r {
+                Ok(len) if len > 0 => {}
+                _ => {
+                    let _ = std::panic::take_hook();
+                    println!("BOUNDED-WITNESS conversion of {:?} panicked or returned nothing", text.chars().take(80).collect::<String>());
+                    panic!("conversion is total");
+                }
+            }
+            n += 1;
+        }
+        let _ = std::panic::take_hook();
+        println!("BOUNDED-CASES {}", n);
     }
 
     /// WITNESS of a known finding (C11): whether a tag next to the right border styles its box depends on the
